@@ -354,6 +354,7 @@ pub fn push_clause(dc: &mut DynClause, clause: &ClauseSpec) {
         10 => go!(ref_family, GmMock::gm.with_types::<u16>()),
         11 => go!(ref_family, GmMock::gm.with_types::<i16>()),
         12 => go!(mut_family, NMock::n0),
+        13 => go!(mut_family, NMock::n1),
         m => panic!("HARNESS: no such method {m}"),
     }
 }
